@@ -376,7 +376,7 @@ def check(ck, prog):
                         return p[2][1]
             return None
         # results
-        n_res, bad_res = 0, []
+        n_res, bad_res, diffs = 0, [], []
         for b in cb["blocks"]:
             if b["id"] not in cfg.live_blocks() or b.get("cleanup"):
                 continue
@@ -395,6 +395,8 @@ def check(ck, prog):
                     if isinstance(e2, tuple) and e2[0] == "bin" and e2[1] == "Sub":
                         i1, i2 = byte_at(e2[2], 1), byte_at(e2[3], 2)
                         ok = i1 is not None and i2 is not None and canon(i1) == canon(i2)
+                        if ok:
+                            diffs.append((b["id"], i1))
                     if not ok:
                         bad_res.append(("not-a-byte-difference", b["id"], e))
         ck.ob("C08.7", "results-are-zero-at-the-end-or-the-byte-difference", not bad_res and n_res >= 2, fn=cb["path"], site=c.site(bad_res[0][1]) if bad_res else None,
@@ -416,6 +418,10 @@ def check(ck, prog):
                 for i, s in enumerate(b["stmts"]):
                     if s["k"] == "assign" and s["dst"]["l"] == il and not s["dst"].get("p"):
                         defs.append((b["id"], c.prov.rvalue(s["rv"], (b["id"], i))))
+            # the sign is that of the FIRST differing pair: a difference is answered only at the scan position (everything below it compared equal)
+            off = [(b, e) for b, e in diffs if not (isinstance(strip_casts(e), tuple) and strip_casts(e)[0] == "var" and strip_casts(e)[1] == il)]
+            ck.ob("C08.7", "difference-answered-at-the-scan-position", not off, fn=cb["path"], site=c.site(off[0][0]) if off else None,
+                  detail=f"a byte difference is returned for position `{show(off[0][1]) if off else ''}`, which is not the scan index: bytes before it may differ the other way (memcmp(\"ba\", \"ab\", 2) must be positive)")
             init = [e for b, e in defs if not cfg.in_cycle(b)]
             stepd = [(b, e) for b, e in defs if cfg.in_cycle(b)]
             ck.ob("C08.7", "index-starts-at-zero", len(init) == 1 and fold(init[0]) == 0, fn=cb["path"], detail=f"initial values of i: {[show(e) for e in init]}")
